@@ -85,25 +85,55 @@ Valid(m) == m \in ValidMsgs
 
 Uploads == {u \in [enc : Encodings, msg : Msgs] : Expressible(u.enc, u.msg)}
 
+HasInline(m) == m \in {"inlineStdout", "inlineFile"}
+
 VARIABLES hist,    \* sequence of uploads to one key
-          stored   \* index into hist of the upload whose message is stored, or 0
-avars == <<hist, stored>>
+          stored,  \* index into hist of the upload whose message is stored, or 0
+          cas,     \* the inline contents of the stored message are (also) a blob in the CAS
+          served   \* how the last read returned those contents: "none" | "inline" | "digestOnly"
+avars == <<hist, stored, cas, served>>
+
+CONSTANT TrustUpload   \* FALSE in the code.  TRUE: a read that drops inline contents which come with a digest does
+                       \* not look in the CAS ("the upload has verified and copied them") - refuted below
 
 MaxHist == 2
+Fronts == {"grpc", "http"}
 
-AInit == hist = <<>> /\ stored = 0
+AInit == hist = <<>> /\ stored = 0 /\ cas = FALSE /\ served = "none"
 AUpload(u) ==
   /\ Len(hist) < MaxHist
   /\ hist' = Append(hist, u)
   \* Mechanism: every front end validates before it stores; gRPC stores the
-  \* message before it de-inlines and verifies inline contents (checked: see InvStoredValid)
+  \* message before it de-inlines and verifies inline contents (checked: see InvStoredValid);
+  \* only the gRPC front end copies inline contents to the CAS at upload time
   /\ stored' = IF Valid(u.msg) THEN Len(hist) + 1 ELSE stored
-ANext == \E u \in Uploads : AUpload(u)
+  /\ cas' = IF Valid(u.msg) THEN (u.enc = "grpc" /\ HasInline(u.msg)) ELSE cas
+  /\ served' = "none"
+
+\* a hit on a message with inline contents: HTTP returns the stored message as it is; gRPC returns the contents
+\* inline when the request asks for them (and the budget allows), otherwise it replaces them by their digest -
+\* after making sure the CAS holds them (Contains, else Put)
+ARead(front, wantInline) ==
+  /\ stored # 0 /\ HasInline(hist[stored].msg)
+  /\ IF front = "grpc" /\ ~wantInline
+     THEN /\ served' = "digestOnly"
+          /\ cas' = IF TrustUpload THEN cas ELSE TRUE
+     ELSE /\ served' = "inline" /\ UNCHANGED cas
+  /\ UNCHANGED <<hist, stored>>
+
+\* the CAS copy is an entry like any other: it can be evicted at any time
+AEvictCas == /\ cas /\ cas' = FALSE /\ served' = "none" /\ UNCHANGED <<hist, stored>>
+
+ANext == \/ \E u \in Uploads : AUpload(u)
+         \/ \E f \in Fronts, w \in BOOLEAN : ARead(f, w)
+         \/ AEvictCas
 ASpec == AInit /\ [][ANext]_avars
 
 \* whatever is stored under an action key always validates; the latest accepted upload wins
 InvStoredValid == stored # 0 => Valid(hist[stored].msg)
 InvLatestWins == \A i \in 1..Len(hist) : Valid(hist[i].msg) => stored >= i
+\* C11: de-inlined bytes are in the CAS under their true digest when the reply that refers to them is sent
+DeinlinedInCas == [][served' = "digestOnly" => cas']_avars
 
 ExpectedOutcomes(h) == [i \in 1..Len(h) |-> IF Valid(h[i].msg) THEN "accept" ELSE "reject"]
 ExpectedStored(h) == LET ok == {i \in 1..Len(h) : Valid(h[i].msg)} IN
